@@ -488,6 +488,19 @@ func (g *Gen) enterLoop(h *ssa.BasicBlock, li *loopInfo) {
 			}
 			g.oblige("inv0", fmt.Sprintf("loop%d:%s", li.ordinal, invLabel(inv, i)), s, h.Instrs[0].Pos(), inv.Text)
 		}
+		// `entry` clauses: facts about the state in which the loop is entered (what is being ranged over, for
+		// instance); proved once, on entry, and not assumed inside the loop
+		for i, ec := range li.lc.Entry {
+			if ec.E == nil {
+				continue
+			}
+			s, err := g.evalBool(env, ec.E)
+			if err != nil {
+				g.E.fatalf("%s:%d: %v", ec.File, ec.Line, err)
+				continue
+			}
+			g.oblige("assert", fmt.Sprintf("%s @ entry of loop %d", invLabel(ec, i), li.ordinal), s, h.Instrs[0].Pos(), ec.Text)
+		}
 	}
 	// 2. havoc loop-modified state
 	st := entry.clone()
